@@ -23,7 +23,11 @@ Streams
                 `if c: break / continue` at EVERY position of a loop body - in front of, between and behind nested
                 loops, nested in if / try blocks, bare at the end of a branch, in the else clause of an inner loop;
                 early `return` nested in an `if`; lambdas called at once, local defs with a loop and a jump of
-                their own, local classes): extract_function, compile, then the entry function
+                their own, local classes; closures: a lambda / local def whose BODY reads names of the enclosing
+                function as free variables, defined some statements behind their binding and called further on, so
+                that runs in front of the definition bind names whose only later use is inside a nested function
+                body - next to names used directly, default arguments, shadowing parameters, comprehensions;
+                such runs are drawn with more weight): extract_function, compile, then the entry function
                 of the old and the new program is called on argument tuples drawn until every line of the
                 selection was executed (gen.refactor_flow); same return value required wherever the
                 original returns (a refactored program that does not terminate is stopped by a line / int-size
@@ -32,6 +36,14 @@ Streams
   inputs        real `extract._find_inputs_and_outputs` calls: the names of the selection with the verdict of
                 the real lookup for EVERY read (computed by the harness with the real `context.goto` /
                 `_is_name_input`), the Lean model `findInputsOutputs` must return the same two lists
+  needed        real `extract._find_needed_output_variables` calls (which of the names the selection binds are handed
+                back): the children of the searched suite as forests (name leaves with is_definition(), `.name`
+                trailers, funcdef / lambdef split into header and body, `start_pos < at_least_pos` per child); the Lean
+                model `ExtractOut.needed` (walk shape translated from the source) must yield the same names in the same
+                order, its walk the same name leaves as the real `_find_non_global_names`, and must agree with the
+                specification `ExtractOut.readsLater` (stream needed-spec: every candidate read behind the selection -
+                also from the body of a closure - is handed back); a disagreement starts a failing-input search
+                (old and new program executed on further argument tuples)
   nonextractable  real outermost `extract._check_for_non_extractables` calls (text streams, corpus, in-process flow
                 programs): the selected nodes as a forest (leaves with their value, loop statements split at `else`,
                 scope nodes, other nodes); the Lean model `NonExtractable.refuses` (branches translated from the
@@ -49,7 +61,7 @@ from common import short
 from gen import refactor_gen, refactor_shapes, refactor_flow
 from props.c07 import dump_tree, load_own_known, split_keepends, sandbox_quirk
 
-MODELS = ['Refactor', 'Tree', 'ExtractIO', 'NonExtractable']
+MODELS = ['Refactor', 'Tree', 'ExtractIO', 'NonExtractable', 'ExtractOut']
 MANIFEST = dict(
     text='Theorems over the model of refactoring.inline and extract._replace: inline either refuses (messages '
          'identical to the source, translator-checked) or rewrites only the references, the defining statement and '
@@ -70,18 +82,29 @@ MANIFEST = dict(
          'break / continue not enclosed by a loop of the selection (nested def / class / lambda start afresh, a loop\'s '
          'else clause is outside of it), and its flag never leaks from a node to the later siblings (general theorem for '
          'every variant that does not rebind the flag; kernel-checked counter-witnesses for the shared-call variant that '
-         'rebinds it and for a variant that counts the else clause to the loop). Tie: translator + correspondence '
-         '(table rows through the real inline and through CPython ast; captured inline / _replace / '
-         '_find_inputs_and_outputs / _check_for_non_extractables calls on generated programs). Compiles-or-refuses, '
+         'rebinds it and for a variant that counts the else clause to the loop); _find_needed_output_variables over '
+         '_find_non_global_names (model ExtractOut; the walk shape - attribute names passed over, the recursive call gets '
+         'ALL children of every node - and the loop / the `or [return_variables[-1]]` expression translator-checked) hands '
+         'back exactly the bound names that are read behind the selection at any depth, the bodies of nested functions '
+         'and lambdas (closures) included, each once (needed_outputs_complete / _sound / _nodup, return_variables_spec; '
+         'general theorem for every walk that enters nested bodies; kernel-checked counter-witness '
+         'pruned_walk_misses_closure_read for a walk that leaves the body of a funcdef / lambdef out). Tie: translator + '
+         'correspondence (table rows through the real inline and through CPython ast; captured inline / _replace / '
+         '_find_inputs_and_outputs / _check_for_non_extractables / _find_needed_output_variables calls on generated '
+         'programs). Compiles-or-refuses, '
          'behavioural equivalence and '
          'the extract->inline round trip are checked by compiling and executing generated programs (a test, '
          'labelled as such), for statement ranges on function bodies with control flow by calling the function of '
-         'the old and the new program on argument tuples drawn until every line of the selection ran; failures of '
+         'the old and the new program on argument tuples drawn until every line of the selection ran (the bodies '
+         'contain closures that read names bound some statements earlier, so an output that is used only from a '
+         'nested function body is exercised); failures of '
          'known root causes are recognised by an explicit rule per root cause (harness/gen/refactor_shapes.py, '
          'harness/gen/refactor_flow.py), anything else is a VIOLATION.',
     note='Modelled not verified: which names get_references returns, _find_nodes (selection normalisation), the '
-         "lookup verdicts (context.goto, flow analysis) and the output analysis of extract_function are "
-         "oracle-checked only; CPython's parser is the judge of the precedence table.",
+         "lookup verdicts (context.goto, flow analysis) are oracle-checked only; the output analysis is modelled "
+         "textually (which later names are looked at), that a textual read behind the selection is the right "
+         "criterion (code after the enclosing statement, the next loop iteration, a closure defined BEFORE the "
+         "selection) is oracle-checked only; CPython's parser is the judge of the precedence table.",
     technique='Lean 4 proof over hand-written model + translator-generated constants + differential '
               'correspondence + execution oracle',
     design='5.C06')
@@ -926,7 +949,26 @@ def flow_in_process(ctx, sink):
         for entry in entries:
             mine = [x for x in sels if x['func'] == entry['name']]
             args = refactor_gen.flow_arguments(rng, entry, 8)
-            for sel in refactor_flow.pick_selections(rng, mine, 4):
+            picked = refactor_flow.pick_selections(rng, mine, 4)
+            # runs that bind a free variable of a closure defined behind them: the `needed` correspondence wants them
+            feeding = [x for x in mine if x.get('closure') and x['n'] > 1 and x not in picked]
+            picked += sorted(feeding, key=lambda x: (x['closure'] != 'only', x.get('depth', 0), x['n']))[:2]
+            for sel in picked:
+                flow_judge(ctx, flow_one(src, entry['entry'], sel, args, sink))
+    # stratum: runs whose bound names are read behind them ONLY from the body of a closure (programs are cheap to
+    # generate, only these runs are evaluated)
+    want, tries = ctx.size(8, 80), 0
+    while want > 0 and tries < ctx.size(60, 600):
+        tries += 1
+        src, entries = refactor_gen.gen_flow_program(rng)
+        sels = [x for x in refactor_flow.selections(src) if x.get('closure') == 'only' and x['n'] > 1]
+        for entry in entries:
+            mine = [x for x in sels if x['func'] == entry['name']]
+            if not mine:
+                continue
+            args = refactor_gen.flow_arguments(rng, entry, 8)
+            for sel in mine[:2]:
+                want -= 1
                 flow_judge(ctx, flow_one(src, entry['entry'], sel, args, sink))
 
 
@@ -1168,8 +1210,15 @@ def run(ctx):
         'compilable program is checked by the oracle only',
         'extract_function input analysis: the loop of _find_inputs_and_outputs is modelled and proved complete / sound / '
         'duplicate-free relative to the per-occurrence verdict of the real lookup (context.goto + _is_name_input, flow '
-        'analysis), which is not modelled; whether those verdicts and the output analysis '
-        '(_find_needed_output_variables) are right is decided by the execution oracle of the flow stream only',
+        'analysis), which is not modelled; whether those verdicts are right is decided by the execution oracle of the '
+        'flow stream only',
+        'extract_function output analysis: _find_non_global_names / _find_needed_output_variables are modelled on a forest '
+        'abstraction of the parso nodes (name leaves, `.name` trailers, funcdef / lambdef header and body; node types '
+        'compared with the python grammar names by the correspondence stream `needed`) and proved complete / sound / '
+        'duplicate-free relative to the names READ textually behind the selection among the later siblings; that this is '
+        'the right set (uses after the enclosing statement, in the next loop iteration, by a closure defined in front of '
+        'the selection whose captured name the selection rebinds - generated programs never rebind a captured name) is '
+        'decided by the execution oracle only',
         'behaviour = final module globals of deterministic, builtin-free, exception-free generated programs; for '
         'the flow stream: the return value of the entry function on every drawn argument tuple',
     ]
